@@ -3,9 +3,9 @@ From XV Require Import lib.Bytes.
 
 (* ---- muc/muc.go, muc/room.go ---- *)
 Definition muc_join_capacity : nat := 1.
-Definition muc_depart_capacity : nat := 0.
+Definition muc_depart_capacity : nat := 1.
 Definition muc_handles_available_presence : bool := true.
 Definition muc_handles_unavailable_presence : bool := true.
 Definition muc_handles_normal_message : bool := true.
 Definition muc_registrations : nat := 3.
-Definition muc_joined_returns_flag : bool := false.
+Definition muc_joined_returns_flag : bool := true.
